@@ -487,7 +487,19 @@ theorem roundtrip_aux (hg : cu.gen = true) (hstrat : cs.tupleStrat = cu.tupleStr
         rfl
       | lit vs =>
         simp only [conf] at hc
-        cases x <;> simp [un, stF, hc]
+        cases hl : litHasEnum vs with
+        | false =>
+          rw [un_lit_simple w cu x hl]
+          simp only [stF]
+          rw [litStruct_simple w x hl]
+          simp [litConf_memPy hc]
+        | true =>
+          -- `Literal[E.A, 1]`: unstructuring gives the argument's key (a member's value), `_structure_enum_literal`
+          -- finds the argument again under that key (`litOK`: the keys are pairwise different)
+          obtain ⟨ha, hfind⟩ := litOK_arg w hl (by simpa [Ty.unionsOK] using hu) hc
+          rw [un_lit_key w cu hl ha]
+          simp only [stF, litStruct, hl, if_true]
+          exact hfind
       | coll k t' =>
         simp only [Ty.supG, Bool.and_eq_true, Bool.or_eq_true, Bool.not_eq_true'] at hs
         obtain ⟨hs', hset⟩ := hs
@@ -584,7 +596,7 @@ theorem roundtrip_aux (hg : cu.gen = true) (hstrat : cs.tupleStrat = cu.tupleStr
         · subst hxn; simp [un, stF]
         · rw [un_opt_some w cu hxn hg]
           rw [conf_opt_some w hxn] at hc
-          have hne := un_ne_none w cu cs.gen hg hwe t' x hs' hc hxn
+          have hne := un_ne_none w cu cs.gen cs.tupleStrat hg hwe t' x hs' (by simpa [Ty.unionsOK] using hu) hc hxn
           have : stF w cs (.opt t') (un w cu t' x) = stF w cs t' (un w cu t' x) := by
             cases hu : un w cu t' x <;> simp_all [stF]
           rw [this]
